@@ -15,5 +15,5 @@ CONSTANTS
   PCaps = {0, 1, 2}
   Junk = 34
   EmitOn = TRUE
-INVARIANTS ResumeEqFresh OffsSane Emit
+INVARIANTS ResumeEqFresh Idempotent OffsSane Emit
 CHECK_DEADLOCK FALSE
